@@ -833,3 +833,52 @@ def crop_passthrough(rep, prog, rule):
                 else:
                     rep.unk(rule, key, st[3], "stored crop box %s" % fmt(e)[:120])
     rep.floor(rule, "constructors that take a CropBox", n, 2)
+
+
+def align_reject(rep, prog, rule):
+    """byte buffers are refused for misalignment only"""
+    rep.rule(rule, "the helpers that reinterpret a byte buffer as pixels (align_buffer_to / "
+             "align_buffer_to_mut: `buffer.align_to::<P>()` = (head, pixels, tail)) refuse a buffer "
+             "only because of a non-empty HEAD (misaligned start) and accept exactly when the head "
+             "is empty: trailing bytes that do not form a whole pixel are ignored. A rejection that "
+             "depends on the tail refuses buffers that are large and aligned enough (any oversized "
+             "buffer whose length is not a multiple of the pixel size), with an alignment / size "
+             "error, and the constructors of Image / ImageRef -- which check size and alignment "
+             "themselves and unwrap the typed view later -- panic on such an image")
+    n = 0
+    for f in sorted(prog.fns.values(), key=lambda x: x.id):
+        if f.kind == "closure" or not re.search(r"::align_buffer_to(_mut)?$", f.name):
+            continue
+        n += 1
+        rep.touch(f)
+        sym = Sym(f)
+        key = f.name.rsplit("::", 1)[-1]
+        bad = unk = None
+        n_ok = 0
+        for (bb, j, rv, whole) in f.defs().get(0, []):
+            r = sym.rvalue(rv, bb, (bb, j))
+            facts = sym.facts_at(bb)
+            is_err = r[0] == "agg" and r[1] == "adt" and r[3] == "Err"
+            is_ok = r[0] == "agg" and r[1] == "adt" and r[3] == "Ok"
+            txt = [(fmt(c), v) for c, v in facts]
+            tail_dep = [t for t in txt if re.search(r"align_to(_mut)?@bb\d+\([^)]*\)\.2", t[0])]
+            head_dep = [t for t in txt if re.search(r"align_to(_mut)?@bb\d+\([^)]*\)\.0", t[0])]
+            if is_err and tail_dep:
+                bad = (bb, tail_dep[0])
+            elif is_err and not head_dep:
+                unk = (bb, txt)
+            elif is_ok:
+                n_ok += 1
+                if tail_dep:
+                    bad = (bb, tail_dep[0])
+            elif not is_err:
+                unk = (bb, [("return value %s" % fmt(r)[:60], None)])
+        if bad:
+            rep.bad(rule, key + "|tail", f.loc,
+                    "%s decides on the tail of align_to (%s is %s): a buffer with trailing bytes that is "
+                    "large and aligned enough is refused" % (f.name, bad[1][0][:70], bad[1][1]))
+        elif unk or not n_ok:
+            rep.unk(rule, key, f.loc, "return paths not recognised: %s" % (unk[1][:2] if unk else "no Ok path"))
+        else:
+            rep.ok(rule, key, f.loc, "refuses only a non-empty head")
+    rep.floor(rule, "byte-buffer reinterpretation helpers", n, 2)
